@@ -1,6 +1,6 @@
 CONF = {
     "level": "exploration",
-    "technique": "property-based robustness testing (rapid) in an isolated worker with deadline: edge-operand programs, every built-in of builtin.yml with boundary arguments, lifecycle VCLs with restarts/recursion/include cycles, hostile requests; oracle = returns-or-reports, bounded restarts",
+    "technique": "property-based robustness testing (rapid) in an isolated worker with deadline: edge-operand programs, every built-in of builtin.yml with boundary arguments (incl. two string grammars with error productions), reads of every predefined variable per scope, a campaign through the test runner's entry ProcessTestSubroutine, lifecycle VCLs with restarts/recursion/include cycles, hostile requests; oracle = returns-or-reports, bounded restarts",
     "level_text": "Totality/boundedness oracle only (no value expectations): every generated program/request must end in a response or a reported error, without panic, fatal error, worker death or deadline overrun, with vcl_recv entered at most 4 times per request. Hangs and stack overflows are caught by the worker isolation. Exploration of generated cases only.",
     "campaigns": [rapid("rapid", 16000, 400000, bq=90), rapid("builtins", 48000, 1200000, bq=90, env={"VERIF_C08_KIND": "builtin"}), rapid("arith", 40000, 1000000, bq=90, env={"VERIF_C08_KIND": "arith"}), rapid("testsub", 24000, 600000, bq=90, env={"VERIF_C08_KIND": "testsub"})],
     "assumptions": [
